@@ -81,9 +81,9 @@ def header_traces(states, rng):
     tid = 0
     for st in states:
         for variant in range(2):
-            for nl in (b'\n', b'\r\n'):
+            for nl in (b'\n', b'\r\n', b'\r'):
                 parts = []
-                for l in (st['l1'], st['l2']):
+                for l in (st['l1'], st['l2'], st.get('l3', {'kind': 'none', 'enc': ''})):
                     tmpl = rng.choice(RENDER[l['kind']])
                     if tmpl is None:
                         continue
@@ -98,7 +98,9 @@ def header_traces(states, rng):
                       'l2': {'kind': st['l2']['kind'], 'enc': norm(st['l2']['enc'])}, 'bom': st['bom'], 'bytes': repr(data),
                       'nontrivial': st['l1']['kind'] != 'none', 'origin': 'headers'}
                 try:
-                    enc, _ = tokenize.detect_encoding(io.BytesIO(data).readline)
+                    # CPython reads source lines with universal newlines: the reference sees \r as a line break too
+                    pieces = iter(re.findall(rb'[^\r\n]*(?:\r\n|\r|\n)|[^\r\n]+\Z', data))
+                    enc, _ = tokenize.detect_encoding(lambda: next(pieces, b''))
                     text = data.decode(enc)
                     tr['refok'] = True
                     tr['refenc'] = norm(enc)
@@ -151,7 +153,7 @@ def run(tier):
             st = {}
             for m in re.finditer(r'/\\ (\w+) = (.*)', block):
                 st[m.group(1)] = tlc.parse_value(m.group(2).strip())
-            if len(st) == 4:
+            if len(st) == 5:
                 states.append(st)
         out.add('states', hres.distinct)
         out.add('transitions', hres.generated)
